@@ -36,7 +36,14 @@ func BuildersViewOf(schemas ast.Schemas, builders ast.Builders) []BuilderView {
 		bv := BuilderView{Pkg: b.Package, Name: b.Name, Object: b.For.Name, RefFields: map[string]string{}, ScalarFields: map[string]string{}}
 		t := schemas.ResolveToType(b.For.Type)
 		if t.Kind == ast.KindStruct && t.Struct != nil {
+			seenField := map[string]int{}
 			for _, f := range t.Struct.Fields {
+				seenField[f.Name]++
+			}
+			for _, f := range t.Struct.Fields {
+				if seenField[f.Name] > 1 {
+					continue // structs derived from unions may hold several fields of one name: ambiguous targets
+				}
 				bv.Fields = append(bv.Fields, f.Name)
 				if f.Type.Kind == ast.KindRef && f.Type.Ref != nil && f.Type.Ref.ReferredPkg == b.Package {
 					bv.RefFields[f.Name] = f.Type.Ref.ReferredType
